@@ -11,10 +11,29 @@ func VX_C18_columns() {
 	cmp, pattern := vx.ParamStr("cmp"), vx.ParamStr("pattern")
 	P := 3
 	s := vxMakeColLite("enum", P) // values over {"b","c"} (fork free), cell 0 nullable
+	dup := vx.HasParam("dup")
+	if dup {
+		// an enum whose value list holds the same string twice: values b, B, c upper-cased by the built-in
+		// ToUpper (which maps the value list); cells over {b, B}
+		vxEnumVals = []string{"b", "B", "c"}
+		for k := range s.s {
+			s.s[k] = vx.Str(1)
+			vx.Assume(vx.Or(s.s[k] == "b", s.s[k] == "B"))
+		}
+	}
 	e := s
 	s.typ = "string"
 	ix := vxConcIndex(2, P)
 	f := vxFrame([]string{"s", "e"}, []vxCol{s, e}, ix)
+	if dup {
+		f = f.Apply(Instruction{Fn: "ToUpper", DstCol: "s", SrcCol1: "s"}, Instruction{Fn: "ToUpper", DstCol: "e", SrcCol1: "e"})
+		vx.Assume(f.Err == nil)
+		up := vxCol{typ: "string", s: make([]string, P), null: s.null}
+		for k := range up.s {
+			up.s[k] = "B"
+		}
+		s = up
+	}
 	rs := f.Filter(Filter{Column: "s", Comparator: cmp, Arg: pattern})
 	re := f.Filter(Filter{Column: "e", Comparator: cmp, Arg: pattern})
 	if vx.HasParam("ctx") {
@@ -43,6 +62,13 @@ func VX_C18_columns() {
 		for k := range rs.index {
 			vx.Check(rs.index[k] == re.index[k], "string and enum column give the same rows")
 			vx.Check(!s.null[rs.index[k]], "nulls never match")
+		}
+		if dup && (pattern == "B" || pattern == "b%" && cmp == "ilike" || pattern == "%") {
+			nn := 0
+			for _, p := range ix {
+				nn += vx.B2I(!s.null[p])
+			}
+			vx.Check(len(rs.index) == nn, "every non-null cell B matches")
 		}
 	}
 	vx.Reach("end")
